@@ -340,7 +340,8 @@ pub fn derive_schedule(c: &ConnCase, ends: &[usize], log: &[Ev], final_read: usi
     let mut bad_done = false;
     let mut written = 0usize;
     let mut after_call = false;
-    let stream_len = ends.last().copied().unwrap_or(0) + if c.bad_tail { BAD_REQUEST_LINE.len() } else { 0 };
+    // the parse error is raised as soon as "BAD\r" has been read (a space is expected after the method)
+    let stream_len = ends.last().copied().unwrap_or(0) + if c.bad_tail { 4 } else { 0 };
     let arrivals = |out: &mut Vec<Sched>, next: &mut usize, bad_done: &mut bool, read: usize| {
         while *next < n && ends[*next] <= read {
             out.push(Sched::Arrive(*next));
@@ -500,6 +501,11 @@ pub fn oracle_conn(c: &ConnCase, run: &ConnRun) -> Result<(), String> {
                     }
                     return Ok(());
                 }
+                if failed {
+                    // the connection was aborted by a later response's body: what had not been
+                    // flushed by then (possibly whole earlier responses) is dropped with it
+                    return Ok(());
+                }
                 if framing == Some(Framing::Close) {
                     // close-delimited and the connection is still open or shut down: the client
                     // takes everything to the end as body
@@ -516,7 +522,7 @@ pub fn oracle_conn(c: &ConnCase, run: &ConnRun) -> Result<(), String> {
             }
             ReadOut::Complete { head, framing, body, consumed } => {
                 e.check_head(&head).map_err(|m| format!("response {i}: {m}"))?;
-                let aborted = has_err || e.short();
+                let aborted = e.aborted();
                 if h.resp.status == 101 {
                     // tunnel: nothing after it is HTTP
                     return Ok(());
